@@ -248,3 +248,63 @@ WITNESSES += [
         ('    coulomb: str = "v"\n', '    coulomb: str = field(default="v")\n'),
     ]),
 ]
+
+# ---------------------------------------------------------------------------------------------------------------------
+# F34: indices created behind the registry print like the registered index of that name (R18f)
+WITNESSES += [
+    dict(id="c18-f34-revert", prop="C18", file=F, expect="R18f", edits=[
+        ('            a = Indices().get_generic_indices(virt=1)[("virt", "")][0]\n            return (KroneckerDelta(p_idx, q_idx) *\n                    KroneckerDelta(q_idx, a))',
+         "            return (KroneckerDelta(p_idx, q_idx) *\n                    KroneckerDelta(q_idx, Index('a', above_fermi=True)))"),
+        ('            i = Indices().get_generic_indices(occ=1)[("occ", "")][0]\n            return (KroneckerDelta(p_idx, q_idx) *\n                    KroneckerDelta(q_idx, i))',
+         "            return (KroneckerDelta(p_idx, q_idx) *\n                    KroneckerDelta(q_idx, Index('i', below_fermi=True)))"),
+    ]),
+    # the same repaired logic spelled differently: one helper asks the registry, keyword call, unpacking
+    dict(id="c18-f34-ok-helper", prop="C18", file=F, expect=None, edits=[
+        ("def _contraction(p, q):", "def _generic_index(space: str):\n    generic = Indices().get_generic_indices(**{space: 1})\n    (idx,) = generic[(space, \"\")]\n    return idx\n\n\ndef _contraction(p, q):"),
+        ('            a = Indices().get_generic_indices(virt=1)[("virt", "")][0]\n            return (KroneckerDelta(p_idx, q_idx) *\n                    KroneckerDelta(q_idx, a))',
+         '            extra = KroneckerDelta(q_idx, _generic_index("virt"))\n            return KroneckerDelta(p_idx, q_idx) * extra'),
+        ('            i = Indices().get_generic_indices(occ=1)[("occ", "")][0]\n            return (KroneckerDelta(p_idx, q_idx) *\n                    KroneckerDelta(q_idx, i))',
+         '            extra = KroneckerDelta(q_idx, _generic_index("occ"))\n            return KroneckerDelta(p_idx, q_idx) * extra'),
+    ]),
+    # the class under another local name, the object through a temporary and a tuple
+    dict(id="c18-unregistered-index-alias", prop="C18", file=F, expect="R18f", edits=[
+        ("from .indices import Index, Indices, get_symbols, split_idx_string", "from .indices import Index, Indices, get_symbols, split_idx_string\nfrom . import indices as _idx_module"),
+        ('            i = Indices().get_generic_indices(occ=1)[("occ", "")][0]\n            return (KroneckerDelta(p_idx, q_idx) *\n                    KroneckerDelta(q_idx, i))',
+         "            make = _idx_module.Index\n            fresh = make('i', below_fermi=True)\n            pair = (q_idx, fresh)\n            return (KroneckerDelta(p_idx, q_idx) *\n                    KroneckerDelta(*pair))"),
+    ]),
+    # a helper that hands the unregistered index out
+    dict(id="c18-unregistered-index-returned", prop="C18", file=F, expect="R18f", edits=[
+        ("def _contraction(p, q):", "def _extra_index():\n    return Index('i', below_fermi=True)\n\n\ndef _contraction(p, q):"),
+        ('            i = Indices().get_generic_indices(occ=1)[("occ", "")][0]\n', "            i = _extra_index()\n"),
+    ]),
+    # the temporary of order_substitutions is never substituted back
+    dict(id="c18-temporary-index-kept", prop="C18", file=I, expect="R18f",
+         old="                subs.append((o, p))\n                final_subs.append((p, n))", new="                subs.append((o, p))"),
+    # the temporary spelled differently (still introduced and eliminated)
+    dict(id="c18-ok-temporary-index", prop="C18", file=I, expect=None,
+         old="                p = Index('p')\n                subs.append((o, p))\n                final_subs.append((p, n))",
+         new="                tmp = Index(name='p')\n                forth, back = (o, tmp), (tmp, n)\n                subs += [forth]\n                final_subs += [back]"),
+    # the differentiation variable used as an index
+    dict(id="c18-derivative-dummy-as-index", prop="C18", file="derivative.py", expect="R18f",
+         old="            symmetrized_deriv_contrib = deriv_contrib.sympy * x**exponent\n", new="            symmetrized_deriv_contrib = deriv_contrib.sympy * x**exponent * KroneckerDelta(x, x)\n"),
+]
+
+WITNESSES += [
+    dict(id="c18-printed-key-drops-number", prop="C18", file=I, expect="R18f",
+         old="    def _latex(self, printer) -> str:\n        ret = self.name\n", new="    def _latex(self, printer) -> str:\n        ret = self.name[0]\n"),
+    dict(id="c18-importer-creates-index", prop="C18", file=F, expect="R18f",
+         old="                idx.extend(get_symbols(sub_part))", new="                idx.extend(Index(n) for n in split_idx_string(sub_part))"),
+]
+
+WITNESSES += [
+    # the differentiation variable handed to an extracted helper (still only a scalar there)
+    dict(id="c18-ok-dummy-through-helper", prop="C18", file="derivative.py", expect=None, edits=[
+        ("def _lift_target_and_repeated_idx(", "def _placeholder_power(symbol, exponent):\n    return symbol**exponent\n\n\ndef _lift_target_and_repeated_idx("),
+        ("            symmetrized_deriv_contrib = deriv_contrib.sympy * x**exponent\n", "            symmetrized_deriv_contrib = deriv_contrib.sympy * _placeholder_power(exponent=exponent, symbol=x)\n"),
+    ]),
+    # ... and a helper that turns it into an index
+    dict(id="c18-dummy-through-helper-as-index", prop="C18", file="derivative.py", expect="R18f", edits=[
+        ("def _lift_target_and_repeated_idx(", "def _placeholder_power(symbol, exponent):\n    return NonSymmetricTensor('x', (symbol,))**exponent\n\n\ndef _lift_target_and_repeated_idx("),
+        ("            symmetrized_deriv_contrib = deriv_contrib.sympy * x**exponent\n", "            symmetrized_deriv_contrib = deriv_contrib.sympy * _placeholder_power(x, exponent)\n"),
+    ]),
+]
